@@ -223,6 +223,12 @@ class Harness:
                     while True:
                         await wait_cmd()
                         cmd = g["cmds"].popleft()
+                        if cmd["op"] == "park":
+                            # from now on the payload waits on an object nobody else knows of
+                            # (no timer, no queue: only its own frame refers to what it awaits)
+                            hooks.emit("p.step", p=pid)
+                            g["ack"].put("park")
+                            await asyncio.Event().wait()
                         r = do(cmd)
                         if r[0] == "end":
                             return finish(r[1])
@@ -246,6 +252,10 @@ class Harness:
                         while not g["cmds"]:
                             await trio.sleep(0 if spec.get("spin") else h.poll)
                         cmd = g["cmds"].popleft()
+                        if cmd["op"] == "park":
+                            hooks.emit("p.step", p=pid)
+                            g["ack"].put("park")
+                            await trio.Event().wait()
                         r = do(cmd)
                         if r[0] == "end":
                             return finish(r[1])
@@ -521,7 +531,7 @@ class Harness:
         scn = self.scn
         for op in scn["script"]:
             o = op["op"]
-            if self.accept_done.is_set() and not op.get("force") and o in ("adopt", "adopt_burst", "execute", "new_service", "step", "seg", "end", "block", "wait_start", "sigint", "polls"):
+            if self.accept_done.is_set() and not op.get("force") and o in ("adopt", "adopt_burst", "execute", "new_service", "step", "seg", "end", "block", "park", "wait_start", "sigint", "polls"):
                 # the runtime has ended: the rest of the behaviour cannot be played any more
                 hooks.emit("skipped", op=o)
                 continue
@@ -544,6 +554,11 @@ class Harness:
                 self.command(op["p"], {"op": "end", "how": op["how"]})
             elif o == "block":
                 self.command(op["p"], {"op": "block"})
+            elif o == "park":
+                self.command(op["p"], {"op": "park"})
+            elif o == "gc":
+                # a cyclic garbage collection happens some time during the run
+                gc.collect()
             elif o == "execute":
                 if op.get("wait", True) is False and op.get("ctx", "driver").startswith("payload:"):
                     # the payload is told to execute (slowly) and the script goes on meanwhile
